@@ -171,6 +171,7 @@ func runC02(c *Ctx) {
 
 	voteSignBytesRules(c)
 	commitVoteRules(c)
+	validatorSetRoles(c)
 
 	// ---- Q: sweep every comparison involving TotalVotingPower() ---------------------------------
 	type want struct{ fn, class, x, recv, why string }
@@ -227,69 +228,7 @@ func runC02(c *Ctx) {
 	}
 	c.Extra["tvp_comparisons_seen"] = nCmp
 
-	quorumRe := `^\(\(\(call:\(\*types\.ValidatorSet\)\.TotalVotingPower\(voteSet\.valSet\) \* const:2\) / const:3\) \+ const:1\)$`
-
-	// ---- VoteSet.addVerifiedVote -------------------------------------------------------------------
-	if fn := c.Fn("types", "VoteSet", "addVerifiedVote"); fn != nil {
-		c.Guarded(fn, "voteSet.sum += power", StoreTo(`^&voteSet\.sum$`),
-			G("voteSet.votes[valIndex] == nil", IsNil(`^voteSet\.votes\[vote\.ValidatorIndex\]$`)))
-		for _, in := range findInstrs(fn, StoreTo(`^&voteSet\.sum$`)) {
-			c.Check("F", fnName(fn)+"/sum grows by the vote's power", pathOf(in.(*ssa.Store).Val) == "(voteSet.sum + votingPower)", instrPos(in), 1, describeInstr(in))
-		}
-		c.Guarded(fn, "store voteSet.maj23", StoreTo(`^&voteSet\.maj23$`),
-			G("origSum < quorum", Cmp(`\.sum$`, "<", quorumRe)),
-			G("quorum <= votesByBlock.sum", Cmp(quorumRe, "<=", `\.sum$`)),
-			G("voteSet.maj23 == nil (first quorum wins)", IsNil(`^voteSet\.maj23$`)))
-		for _, in := range findInstrs(fn, StoreTo(`^&voteSet\.maj23$`)) {
-			c.Check("F", fnName(fn)+"/maj23 is the block id of the crossing vote", pathOf(in.(*ssa.Store).Val) == "&(vote.BlockID)", instrPos(in), 1, describeInstr(in))
-		}
-		// the two tallies compared are read before / after the per-block add
-		add := findInstrs(fn, CallTo(`^\(\*types\.blockVotes\)\.addVerifiedVote$`, ""))
-		if len(add) != 1 {
-			c.Bad("O", fnName(fn)+"/exactly one blockVotes.addVerifiedVote", fn.Pos(), len(add), fmt.Sprintf("%d calls", len(add)))
-		} else {
-			var before, after *ssa.BinOp
-			for _, b := range fn.Blocks {
-				for _, in := range b.Instrs {
-					if bo, ok := in.(*ssa.BinOp); ok && isCmp(bo.Op) && (containsTVP(bo.X, 0) || containsTVP(bo.Y, 0)) {
-						class, _, _ := classifyQ(bo)
-						if class == "NOTSUPER" {
-							before = bo
-						} else if class == "SUPER" {
-							after = bo
-						}
-					}
-				}
-			}
-			ok := before != nil && after != nil
-			detail := ""
-			if ok {
-				_, x1, _ := classifyQ(before)
-				_, x2, _ := classifyQ(after)
-				l1, ok1 := x1.(ssa.Instruction)
-				l2, ok2 := x2.(ssa.Instruction)
-				ok = ok1 && ok2 && instrBefore(l1, add[0]) && instrBefore(add[0], l2)
-				detail = fmt.Sprintf("origSum read at %s, add at %s, new sum read at %s", c.P.Pos(instrPos(l1)), c.P.Pos(instrPos(add[0])), c.P.Pos(instrPos(l2)))
-			}
-			c.Check("O", fnName(fn)+"/origSum read before, new sum read after the per-block add", ok, instrPos(add[0]), 3, detail)
-			a := argPaths(callCommon(add[0]))
-			c.Check("F", fnName(fn)+"/per-block add gets (vote, votingPower)", len(a) == 3 && a[1] == "vote" && a[2] == "votingPower", instrPos(add[0]), 1, describeInstr(add[0]))
-		}
-		// the validator's slot is overwritten only when empty or when the new vote is for the established majority
-		c.Guarded(fn, "store voteSet.votes[valIndex]", StoreTo(`^&voteSet\.votes\[vote\.ValidatorIndex\]$`),
-			G("slot empty, or new vote is for maj23", IsNil(`^voteSet\.votes\[vote\.ValidatorIndex\]$`), Cmp(`^call:\(\*types\.BlockID\)\.Key\(voteSet\.maj23\)$`, "==", `^blockKey$`)))
-	}
-	if fn := c.Fn("types", "blockVotes", "addVerifiedVote"); fn != nil {
-		c.Guarded(fn, "vs.sum += power / slot store", StoreTo(`^&vs\.(sum|votes\[vote\.ValidatorIndex\])$`),
-			G("vs.votes[valIndex] == nil", IsNil(`^vs\.votes\[vote\.ValidatorIndex\]$`)))
-		for _, in := range findInstrs(fn, StoreTo(`^&vs\.sum$`)) {
-			c.Check("F", fnName(fn)+"/sum grows by the vote's power", pathOf(in.(*ssa.Store).Val) == "(vs.sum + votingPower)", instrPos(in), 1, describeInstr(in))
-		}
-	}
-	c.OnlyWrittenIn("types", "VoteSet", "maj23", 1, `^\(\*types\.VoteSet\)\.addVerifiedVote$`, `^types\.NewVoteSet$`)
-	c.OnlyWrittenIn("types", "VoteSet", "sum", 1, `^\(\*types\.VoteSet\)\.addVerifiedVote$`, `^types\.NewVoteSet$`)
-	c.OnlyWrittenIn("types", "blockVotes", "sum", 1, `^\(\*types\.blockVotes\)\.addVerifiedVote$`, `^types\.newBlockVotes$`)
-	c.OnlyCalledFrom("VoteSet.addVerifiedVote only from VoteSet.addVote", `^\(\*types\.VoteSet\)\.addVerifiedVote$`, 1, `^\(\*types\.VoteSet\)\.addVote$`)
+	tallyRules(c)
 
 	// vote admission runs under the vote set's lock (duplicate test and tally update are atomic)
 	if fn := c.Fn("types", "VoteSet", "AddVote"); fn != nil {
@@ -493,6 +432,80 @@ func verifyCommitRules(c *Ctx) {
 
 // voteAdmissionRules: a vote is counted only after it was checked against the vote set and verified with the key of
 // the validator at its index. Shared by C02 (quorum certificates) and C01 (a forged +2/3 breaks agreement).
+// tallyRules: a validator's power enters a tally once (only into an empty slot), the majority is recorded on the crossing
+// of the quorum by the per-block tally, once, for the crossing vote's block id. Shared by C02 (quorum certificates) and
+// C01 (two conflicting +2/3 need a double-counted or miscounted tally).
+func tallyRules(c *Ctx) {
+	quorumRe := `^\(\(\(call:\(\*types\.ValidatorSet\)\.TotalVotingPower\(voteSet\.valSet\) \* const:2\) / const:3\) \+ const:1\)$`
+	// ---- VoteSet.addVerifiedVote -------------------------------------------------------------------
+	if fn := c.Fn("types", "VoteSet", "addVerifiedVote"); fn != nil {
+		c.Guarded(fn, "voteSet.sum += power", StoreTo(`^&voteSet\.sum$`),
+			G("voteSet.votes[valIndex] == nil", IsNil(`^voteSet\.votes\[vote\.ValidatorIndex\]$`)))
+		for _, in := range findInstrs(fn, StoreTo(`^&voteSet\.sum$`)) {
+			c.Check("F", fnName(fn)+"/sum grows by the vote's power", pathOf(in.(*ssa.Store).Val) == "(voteSet.sum + votingPower)", instrPos(in), 1, describeInstr(in))
+		}
+		c.Guarded(fn, "store voteSet.maj23", StoreTo(`^&voteSet\.maj23$`),
+			G("origSum < quorum", Cmp(`\.sum$`, "<", quorumRe)),
+			G("quorum <= votesByBlock.sum", Cmp(quorumRe, "<=", `\.sum$`)),
+			G("voteSet.maj23 == nil (first quorum wins)", IsNil(`^voteSet\.maj23$`)))
+		for _, in := range findInstrs(fn, StoreTo(`^&voteSet\.maj23$`)) {
+			c.Check("F", fnName(fn)+"/maj23 is the block id of the crossing vote", pathOf(in.(*ssa.Store).Val) == "&(vote.BlockID)", instrPos(in), 1, describeInstr(in))
+		}
+		// the two tallies compared are read before / after the per-block add
+		add := findInstrs(fn, CallTo(`^\(\*types\.blockVotes\)\.addVerifiedVote$`, ""))
+		if len(add) != 1 {
+			c.Bad("O", fnName(fn)+"/exactly one blockVotes.addVerifiedVote", fn.Pos(), len(add), fmt.Sprintf("%d calls", len(add)))
+		} else {
+			var before, after *ssa.BinOp
+			for _, b := range fn.Blocks {
+				for _, in := range b.Instrs {
+					if bo, ok := in.(*ssa.BinOp); ok && isCmp(bo.Op) && (containsTVP(bo.X, 0) || containsTVP(bo.Y, 0)) {
+						// which of the two quorum comparisons this is follows from when its tally was read, not from the way
+						// the comparison is written (`origSum < quorum` and `origSum >= quorum` test the same thing)
+						class, x, _ := classifyQ(bo)
+						if class != "NOTSUPER" && class != "SUPER" {
+							continue
+						}
+						if l, isInstr := x.(ssa.Instruction); isInstr && instrBefore(l, add[0]) {
+							before = bo
+						} else {
+							after = bo
+						}
+					}
+				}
+			}
+			ok := before != nil && after != nil
+			detail := ""
+			if ok {
+				_, x1, _ := classifyQ(before)
+				_, x2, _ := classifyQ(after)
+				l1, ok1 := x1.(ssa.Instruction)
+				l2, ok2 := x2.(ssa.Instruction)
+				ok = ok1 && ok2 && instrBefore(l1, add[0]) && instrBefore(add[0], l2)
+				detail = fmt.Sprintf("origSum read at %s, add at %s, new sum read at %s", c.P.Pos(instrPos(l1)), c.P.Pos(instrPos(add[0])), c.P.Pos(instrPos(l2)))
+			}
+			c.Check("O", fnName(fn)+"/origSum read before, new sum read after the per-block add", ok, instrPos(add[0]), 3, detail)
+			a := argPaths(callCommon(add[0]))
+			c.Check("F", fnName(fn)+"/per-block add gets (vote, votingPower)", len(a) == 3 && a[1] == "vote" && a[2] == "votingPower", instrPos(add[0]), 1, describeInstr(add[0]))
+		}
+		// the validator's slot is overwritten only when empty or when the new vote is for the established majority
+		c.Guarded(fn, "store voteSet.votes[valIndex]", StoreTo(`^&voteSet\.votes\[vote\.ValidatorIndex\]$`),
+			G("slot empty, or new vote is for maj23", IsNil(`^voteSet\.votes\[vote\.ValidatorIndex\]$`), Cmp(`^call:\(\*types\.BlockID\)\.Key\(voteSet\.maj23\)$`, "==", `^blockKey$`)))
+	}
+	if fn := c.Fn("types", "blockVotes", "addVerifiedVote"); fn != nil {
+		c.Guarded(fn, "vs.sum += power / slot store", StoreTo(`^&vs\.(sum|votes\[vote\.ValidatorIndex\])$`),
+			G("vs.votes[valIndex] == nil", IsNil(`^vs\.votes\[vote\.ValidatorIndex\]$`)))
+		for _, in := range findInstrs(fn, StoreTo(`^&vs\.sum$`)) {
+			c.Check("F", fnName(fn)+"/sum grows by the vote's power", pathOf(in.(*ssa.Store).Val) == "(vs.sum + votingPower)", instrPos(in), 1, describeInstr(in))
+		}
+	}
+	c.OnlyWrittenIn("types", "VoteSet", "maj23", 1, `^\(\*types\.VoteSet\)\.addVerifiedVote$`, `^types\.NewVoteSet$`)
+	c.OnlyWrittenIn("types", "VoteSet", "sum", 1, `^\(\*types\.VoteSet\)\.addVerifiedVote$`, `^types\.NewVoteSet$`)
+	c.OnlyWrittenIn("types", "blockVotes", "sum", 1, `^\(\*types\.blockVotes\)\.addVerifiedVote$`, `^types\.newBlockVotes$`)
+	c.OnlyCalledFrom("VoteSet.addVerifiedVote only from VoteSet.addVote", `^\(\*types\.VoteSet\)\.addVerifiedVote$`, 1, `^\(\*types\.VoteSet\)\.addVote$`)
+
+}
+
 func voteAdmissionRules(c *Ctx) {
 	// ---- VoteSet.addVote: verified before counted ----------------------------------------------------
 	if fn := c.Fn("types", "VoteSet", "addVote"); fn != nil {
